@@ -98,6 +98,7 @@ static int get_source_reg(
       a = a + (address + count);
       // FIXME: Is this how 20 bit works?
       int upper = address & 0xf0000;
+      if (prefix != 0xffff) { upper = a & 0xf0000; }
       snprintf(reg_str, length, "0x%04x", (a & 0xffff) | upper);
     }
       else
@@ -241,6 +242,7 @@ static int get_dest_reg(
       a = a + (address + count);
       // FIXME: Is this how 20 bit works?
       int upper = address & 0xf0000;
+      if (prefix != 0xffff) { upper = a & 0xf0000; }
       snprintf(reg_str, length, "0x%04x", (a & 0xffff) | upper);
     }
   }
